@@ -37,6 +37,9 @@ def run(ctx, deep=False):
 def judge_api(o):
     """the clauses of the statement, on what was observed after shutdown() returned"""
     bad = []
+    if o.get("moment") and o["moment"][0] == "callback" and not o.get("moment_not_reached") and o.get("inner_shutdown") != "returned":
+        bad.append(("shutdown-in-callback", "shutdown() requested from inside the application's '%s' callback: %s" % (
+            o.get("callback"), "never returned" if o.get("inner_shutdown") == "pending" else "raised %s" % o.get("inner_shutdown"))))
     if o.get("shutdown_raised"):
         bad.append(("shutdown-raises", "shutdown() raised %s" % o["shutdown_raised"]))
     if o.get("tasks_alive") or o.get("timers"):
@@ -66,6 +69,20 @@ def judge_api(o):
     return bad
 
 
+def _settled(sc):
+    """the console a later init() meets: the scenario's console after all its scripted changes, with no faults"""
+    if not sc.get("ac_state"):
+        return fullstack.SCENARIOS["plain"]
+    acs = [dict(a) for a in sc["ac_state"]]
+    text = dict(sc.get("err_text", {}))
+    for (_, ac, code, t) in sorted(sc.get("changes", [])):
+        for a in acs:
+            if a["id"] == ac:
+                a["err"] = code
+        text[ac] = t
+    return dict(inst=sc["inst"], horizon=120, ac_state=acs, err_text=text)
+
+
 def _api_one(job):
     gen, name, moment, reinit, base_view = job
     try:
@@ -84,12 +101,16 @@ def api_level(ctx, thorough):
             base = fullstack.run(gen, sc)
             ctx.count("api:baseline:%s:init=%s" % (name, base["init_result"]))
             n = base["baseline_events"]
-            ref_view = fullstack.run(gen, fullstack.SCENARIOS["plain"])["view"]
+            ref_view = fullstack.run(gen, _settled(sc))["view"]
             for j in range(0, n):
                 for k in range(0, kmax + 1):
                     if not thorough and n > 40 and (j * 31 + k * 7 + ctx.seed) % 3:
                         continue
                     jobs.append((gen, name, ("event", j, k), (j + k + ctx.seed) % 3 == 0, ref_view))
+            for j in range(len(base.get("baseline_callbacks", []))):
+                # shutdown requested by the application from inside its j-th callback (connection, AC, zone or system subscriber)
+                for k in (0, 1, 2, 3):
+                    jobs.append((gen, name, ("callback", j, k), (j + k) % 2 == 0, ref_view))
             horizon = sc.get("horizon", 200)
             ticks_ = sorted(set([1, 2, 15, 16, 17, 39, 40, 41, 42] + [t for t in (2399, 2400, 2401, 2639, 2640, 2641, 4800, 5040, 5041) if t < horizon + 40]
                                 + [ctx.rng.randrange(1, horizon) for _ in range(20 if thorough else 6)]))
@@ -112,13 +133,14 @@ def api_level(ctx, thorough):
                 worst[key] = (gen, name, moment, reinit, what, o)
     for key, (gen, name, moment, reinit, what, o) in worst.items():
         ctx.violation(key, "AirTouch %d, console scenario '%s', shutdown() issued %s (API state %s): %s" % (
-            gen, name, "%d loop passes after network event %d" % (moment[2], moment[1]) if moment[0] == "event" else "%d loop passes after tick %d" % (moment[2], moment[1]),
+            gen, name, "%d loop passes after network event %d" % (moment[2], moment[1]) if moment[0] == "event" else
+            "%d loop passes into application callback number %d" % (moment[2], moment[1]) if moment[0] == "callback" else "%d loop passes after tick %d" % (moment[2], moment[1]),
             o.get("state_before"), what), kind="history", level="api", gen=gen, scenario=name, moment=list(moment), reinit=reinit,
             implementation_output={k: v for k, v in o.items() if k not in ("reinit_view", "baseline_view")}, spec_verdict=what)
     ctx.coverage["rule"] += (
         " API level: the real AirTouch4 / AirTouch5 object over the real socket and the in-memory transport against a scripted console "
         "(scenarios: %s); shutdown() issued k = 0..%d loop passes after EVERY network event of the run (connect attempt, connection, each "
-        "transport write) and after selected instants (retry delays, the 5 s init deadline, heartbeat and timeout instants), then 1000 s idle, "
+        "transport write), after selected instants (retry delays, the 5 s init deadline, heartbeat and timeout instants) and from INSIDE every application callback of the run (connection, AC, zone subscribers), then 1000 s idle, "
         "census of tasks / timers / transports / network activity / notifications, a send (must raise not-open), and in a third of the runs a "
         "later init() whose model must equal a fresh object's, which must send heartbeats again and shut down cleanly." % (", ".join(fullstack.SCENARIOS), kmax))
 
@@ -131,7 +153,7 @@ def search(ctx):
 def replay(ctx, data):
     if data.get("level") == "api":
         o = fullstack.run(data["gen"], fullstack.SCENARIOS[data["scenario"]], tuple(data["moment"]), data.get("reinit", False))
-        o["baseline_view"] = fullstack.run(data["gen"], fullstack.SCENARIOS["plain"])["view"]
+        o["baseline_view"] = fullstack.run(data["gen"], _settled(fullstack.SCENARIOS[data["scenario"]]))["view"]
         bad = judge_api(o)
         print({k: v for k, v in o.items() if "view" not in k})
         print(bad)
